@@ -44,6 +44,12 @@ func (h *invocationErrorHandler) ServeHTTP(writer http.ResponseWriter, request *
 	}
 
 	runtime := h.registrationService.GetRuntime()
+	if runtime == nil {
+		// no runtime is registered (not launched yet, or cleared by a reset): the call is illegal in this state
+		rendering.RenderForbiddenWithTypeMsg(writer, request, rendering.ErrorTypeInvalidStateTransition, StateTransitionFailedForRuntimeMessageFormat,
+			runtimeNotRegisteredStateName, core.RuntimeInvocationErrorResponseStateName, runtimeNotRegisteredError)
+		return
+	}
 	if err := runtime.InvocationErrorResponse(); err != nil {
 		log.Warn(err)
 		rendering.RenderForbiddenWithTypeMsg(writer, request, rendering.ErrorTypeInvalidStateTransition, StateTransitionFailedForRuntimeMessageFormat,
